@@ -63,6 +63,7 @@ Definition op_okb (w : world) (known : list id) (o : op) : bool :=
        end
   | OModAppend ir v | OModInsert ir _ v | OModRemove ir v | OModSetItem ir _ v => is_k w ir KIR && is_k w v KMod
   | OModExtend ir vs | OModSetSlice ir _ _ vs => is_k w ir KIR && forallb (fun v => is_k w v KMod) vs
+  | OModSetExt ir _ _ c vs => is_k w ir KIR && forallb (fun v => is_k w v KMod) vs && negb (c =? 1)
   | OModPop ir _ | OModDelItem ir _ | OModDelSlice ir _ _ | OModClear ir | OModReverse ir => is_k w ir KIR
   | OAttrAddr bi _ => is_k w bi KBI
   | OAttrSize n s => has w n && (kind_eqb (kindof w n) KBI || is_block (kindof w n)) && (0 <=? s)
